@@ -554,6 +554,20 @@ def binop_observe(op, a, b, route):
     """a op b for operand bytes of any numeric size; float result delivered as bytes."""
     if route == 'api':
         return call2(api().binop[op], a, b)
+    if route == 'api-soft':
+        # values API with the console attached and float errors handled softly
+        A = api()
+        A.sess.execute(b'CLS')
+        A.vals.error_handler.suspend(False)
+        try:
+            o = call2(A.binop[op], a, b)
+        finally:
+            A.vals.error_handler.suspend(True)
+        if o[0] != 'ok':
+            return o
+        text = b'\n'.join(A.sess.chars())
+        code = 6 if b'Overflow' in text else (11 if b'Division by zero' in text else None)
+        return ('soft', code, o[1]) if code else o
     rn = max(len(a), len(b), 4)
     expr = MK[rn] + b'(' + CV[len(a)] + b'(A$)' + op.encode() + CV[len(b)] + b'(B$))'
     o = run_expr(expr, {'A$': a, 'B$': b}, route)
@@ -637,3 +651,26 @@ def gen_related(rng):
             return rand_bytes(rng, n - 1) + b'\0'
         return enc(rng.getrandbits(1), rand_man(rng, P[n]), rng.choice((1, 2)), n)
     return zero_or_tiny(nx), zero_or_tiny(ny), 'zeros'
+
+
+# ---------------------------------------------------------------------------------------------
+# progress watchdog for bulk loops (a stalled operation is inconclusive, never a violation)
+
+import signal as _signal
+
+
+class Hang(BaseException):
+    """Raised by the watchdog inside a bulk loop that made no progress for `seconds`."""
+
+
+def _on_alarm(signum, frame):
+    raise Hang()
+
+
+def arm(seconds=30.0):
+    _signal.signal(_signal.SIGALRM, _on_alarm)
+    _signal.setitimer(_signal.ITIMER_REAL, seconds)
+
+
+def disarm():
+    _signal.setitimer(_signal.ITIMER_REAL, 0)
